@@ -173,9 +173,12 @@ def _job(job):
     os.makedirs(wd, exist_ok=True)
     out = os.path.join(wd, "o.pqr")
     open(os.path.join(wd, "in.pdb"), "w").write(job["text"])
-    r = runner.run(job["args"] + [os.path.join(wd, "in.pdb"), out], groups={"atoms", "stages", "log"}, out_path=out)
+    r = runner.run(job["args"] + [os.path.join(wd, "in.pdb"), out], groups={"atoms", "stages", "log", "hbsched"}, out_path=out)
     tr = r["tracer"]
     res = {"ok": r["ok"], "exc": r["exc_type"], "msg": str(r["exc"])[:100] if r["exc"] else ""}
+    # the scheduler of the hydrogen-bond optimisation (HbondSched.tla): every call of optimize_hydrogens of this run
+    res["hbs"] = [{k: c[k] for k in ("n", "hb", "fixed0", "fl0", "ev", "stage", "kinds")} for c in getattr(tr, "hbsched_calls", [])
+                  if c.get("n") and "error" not in c and c["n"] <= 400 and len(c["ev"]) <= 4000]
     if r["ok"]:
         ev, reported, fivep, recognised = [], [], [], []
         last_log = ""
@@ -249,6 +252,68 @@ def _job(job):
     return res
 
 
+def hbsched_conformance(ctx, jobs, res):
+    """Every recorded call of HydrogenRoutines.optimize_hydrogens must be a behaviour of HbondSched.tla (the order of the
+    networks, of the three passes inside a network, of the bonds inside a pass, which call is made on which object with which
+    atoms, and that every network member is completed).  The schedule is not one of the listed properties: a rejected trace is
+    drift (evidence only).  The binding is shown on every run by a corrupted copy that must be rejected."""
+    import copy
+    calls = []
+    for j, o in zip(jobs, res):
+        for c in o.get("hbs", []) or []:
+            calls.append({"id": len(calls) + 1, "n": c["n"], "hb": [[{k: h[k] for k in ("a", "b", "d", "al", "ob", "wa", "wb", "na", "nb")} for h in row]
+                                                                  for row in c["hb"]],
+                          "fixed0": c["fixed0"], "fl0": c["fl0"], "ev": c["ev"], "what": f"{j['what']} {' '.join(j['args'])} [{c['stage']}]",
+                          "kinds": c["kinds"]})
+    if not calls:
+        return
+    probes = []
+    big = next((c for c in sorted(calls, key=lambda c: -len(c["ev"])) if sum(1 for e in c["ev"] if e["e"] in ("don", "acc")) >= 2), None)
+    if big is not None:
+        # (1) two neighbouring calls exchanged, (2) one complete() call dropped
+        bad = copy.deepcopy(big)
+        ks = [k for k, e in enumerate(bad["ev"]) if e["e"] in ("don", "acc")]
+        k1 = next((k for k in ks if k + 1 < len(bad["ev"]) and bad["ev"][k + 1]["e"] in ("don", "acc") and
+                   (bad["ev"][k]["o"], bad["ev"][k]["e"], bad["ev"][k]["b"]) != (bad["ev"][k + 1]["o"], bad["ev"][k + 1]["e"], bad["ev"][k + 1]["b"])), None)
+        if k1 is not None:
+            bad["ev"][k1], bad["ev"][k1 + 1] = bad["ev"][k1 + 1], bad["ev"][k1]
+            bad["id"], bad["what"] = len(calls) + len(probes) + 1, "corrupted copy: two calls exchanged"
+            probes.append(bad)
+        bad = copy.deepcopy(big)
+        kc = next((k for k, e in enumerate(bad["ev"]) if e["e"] == "cmp"), None)
+        if kc is not None:
+            del bad["ev"][kc]
+            bad["id"], bad["what"] = len(calls) + len(probes) + 1, "corrupted copy: one complete() call removed"
+            probes.append(bad)
+    allc = calls + probes
+    tf = core.write_json(os.path.join(ctx.work, "hbsched.json"), [{k: c[k] for k in ("id", "n", "hb", "fixed0", "fl0", "ev")} for c in allc])
+    r = core.run_tlc("HbondSchedTrace", "HbondSchedTrace.cfg", ctx.work, workers=1, env={"TRACE_FILE": tf}, timeout=2400, heap="8g")
+    core.need_ok(r, "HbondSchedTrace")
+    ctx.add_tlc(r, "optimisation scheduler conformance (drift only)")
+    v = {x[1]: x for x in r.printed if isinstance(x, list) and x and x[0] == "T"}
+    if len(v) != len(allc):
+        raise core.MachineryError(f"HbondSchedTrace: {len(v)} verdicts for {len(allc)} traces; {r.unparsed[:2]} {r.out[-600:]}")
+    for b in probes:
+        if v[b["id"]][2]:
+            raise core.MachineryError(f"HbondSchedTrace accepted a {b['what']}")
+    rej = [c for c in calls if not v[c["id"]][2]]
+    unsettled = [c for c in calls if v[c["id"]][4]]
+    ev_total = sum(len(c["ev"]) for c in calls)
+    kinds = {}
+    for c in calls:
+        for e in c["ev"]:
+            kinds[e["e"]] = kinds.get(e["e"], 0) + 1
+    ctx.extra["hbond_scheduler"] = {"optimize_hydrogens_calls": len(calls), "accepted_by_HbondSched_tla": len(calls) - len(rej), "rejected": len(rej),
+                                    "schedule_clause_failed": len(unsettled), "events": ev_total, "events_by_kind": kinds,
+                                    "objects_max": max(c["n"] for c in calls), "corrupted_copies_rejected": len(probes)}
+    for c in rej[:5]:
+        k = v[c["id"]][3]
+        ctx.drift.append({"hbond_scheduler_rejected": c["what"], "at_event": k, "events_around": c["ev"][max(0, k - 3):k + 2]})
+    for c in unsettled[:5]:
+        ctx.drift.append({"hbond_scheduler_clause_failed": c["what"]})
+    ctx.traces += len(calls)
+
+
 def run(ctx):
     rng = random.Random(ctx.seed)
     ctx.rule = ("corpus: ALA tripeptides with every residue type at each position (+ water) under rotating force fields and "
@@ -275,8 +340,18 @@ def run(ctx):
     if not r0.invariant:
         raise core.MachineryError("self-test failed: LeakLP does not violate the OptClasses invariants")
     ctx.add_tlc(r0, "LeakLP deviation: violation found as required")
+    # (M) the scheduler of the optimisation on every small instance, free environment
+    for nobj, pat in ([(2, 1), (2, 2)] if ctx.tier == "quick" else [(2, 1), (2, 2), (3, 1)]):
+        cfgs = os.path.join(ctx.work, f"hs{nobj}{pat}.cfg")
+        open(cfgs, "w").write(open(os.path.join(core.SPEC, "HbondSched_mc.cfg")).read().replace("N = 3", f"N = {nobj}").replace("Pattern = 1", f"Pattern = {pat}"))
+        rs = core.run_tlc("MC_HbondSched", cfgs, ctx.work, timeout=1500, heap="8g", deadlock=True)
+        core.need_ok(rs, "MC_HbondSched")
+        ctx.add_tlc(rs, f"optimisation scheduler: all instances with {nobj} objects, distance pattern {pat}, free environment")
+        if rs.invariant:
+            ctx.drift.append({"HbondSched_model_violates": rs.invariant})
     jobs = corpus(ctx, rng)
     res = core.pmap(_job, jobs, chunksize=1)
+    hbsched_conformance(ctx, jobs, res)
     traces = []
     for j, o in zip(jobs, res):
         ctx.evaluations += 1
